@@ -104,6 +104,9 @@ package statefulset
 //@ ghost global gReplaceDue set[int] -- ordinals whose Failed/Succeeded pod was deleted in order to be replaced
 //@ ghost global gDeleted set[int]    -- pods (references) for which a delete was issued
 //@ ghost global gUpdDeletes int      -- deletes justified only by the pod's revision
+//@ ghost global gWrites int          -- API writes of any kind issued so far (pods, claims, revisions, status)
+//@ ghost global gPodTouch int        -- writes on pods and claims (create, delete, update, patch)
+//@ ghost global gRevAdopts int       -- ControllerRevision adoptions and label syncs
 //@ ghost global gAlloc0 int          -- allocation mark at the start of the reconcile: objects at or above it were made by this reconcile
 
 //@ spec func desiredG(o int) bool = desired(gR, gS, o)
@@ -127,9 +130,10 @@ package statefulset
 //@   profile defaulted requires [C05] updatelast: gMonotonic && !condemnedP(pod) && !replaceable(pod) ==> (forall k int :: {gSnap[k]} 0 <= k && k < len(gSnap) ==> !condemnedP(gSnap[k]))
 //@   profile defaulted requires [C05] updatehealthy: gMonotonic && !condemnedP(pod) && !replaceable(pod) ==> (forall o int32 :: desiredG(o) ==> snapHealthyAt(o) || o == ordOf(pod))
 //@   profile defaulted requires [C07] forupdate: !condemnedP(pod) && !replaceable(pod) ==> gStrategy != "OnDelete" && ordOf(pod) >= gPartition && revOf(pod) != gUpdRev && gUpdDeletes == 0 && (forall o int32 :: o > ordOf(pod) && desiredG(o) ==> snapUpdatedAt(o))
-//@   modifies ghost gNact, gActOrd, gDeleted, gReplaceDue, gUpdDeletes
+//@   modifies ghost gNact, gActOrd, gDeleted, gReplaceDue, gUpdDeletes, gWrites, gPodTouch
 //@   noalloc
 //@   ensures gNact == old(gNact) + 1 && gActOrd == ite(old(gNact) == 0, ordOf(pod), old(gActOrd))
+//@   ensures gWrites == old(gWrites) + 1 && gPodTouch == old(gPodTouch) + 1
 //@   ensures gDeleted == store(old(gDeleted), pod, true)
 //@   ensures gReplaceDue == ite(replaceable(pod), store(old(gReplaceDue), ordOf(pod), true), old(gReplaceDue))
 //@   ensures gUpdDeletes == old(gUpdDeletes) + ite(!condemnedP(pod) && !replaceable(pod), 1, 0)
@@ -143,16 +147,19 @@ package statefulset
 //@   profile defaulted requires [C04] once: !gCreated[ordOf(pod)]
 //@   profile defaulted requires [C05] onestep: gMonotonic ==> gNact == 0 || gActOrd == ordOf(pod)
 //@   profile defaulted requires [C05] predecessors: gMonotonic ==> (forall o int32 :: 0 <= o && o < ordOf(pod) && desiredG(o) ==> snapHealthyAt(o))
-//@   modifies ghost gNact, gActOrd, gCreated
+//@   modifies ghost gNact, gActOrd, gCreated, gWrites, gPodTouch
 //@   noalloc
 //@   ensures gNact == old(gNact) + 1 && gActOrd == ite(old(gNact) == 0, ordOf(pod), old(gActOrd))
+//@   ensures gWrites > old(gWrites) && gPodTouch > old(gPodTouch)
 //@   ensures gCreated == store(old(gCreated), ordOf(pod), true)
 
 //@ interface StatefulPodControlInterface.UpdateStatefulPod
 //@   params spc, set, pod
 //@   requires pod != nil && set != nil
 //@   profile defaulted requires [C10] copyonly: pod >= gAlloc0
-//@   modifies pod.Name, pod.Namespace, pod.Labels, pod.Spec, map(pod.Labels)
+//@   profile defaulted requires [C11] notdeleting: !gDeleting
+//@   modifies pod.Name, pod.Namespace, pod.Labels, pod.Spec, map(pod.Labels), gWrites, gPodTouch
+//@   ensures gWrites >= old(gWrites) && gPodTouch >= old(gPodTouch)
 
 //@ sortspec ascendingOrdinal: ordOf(a) <= ordOf(b)
 
@@ -247,7 +254,10 @@ package statefulset
 //@   at exit: assert [C12] actionwitnessexit: err == nil && !gDeleting && gUpdDeletes == 0 ==> (gNact >= 1 ==> nCreated >= 1 || firstDel >= 0) && (firstDel >= 0 ==> firstDel < len(pods) && gDeleted[pods[firstDel]])
 //@   at exit: assert [C12] acctliveexit: err == nil && !gDeleting ==> (forall k int :: {pods[k]} {updL[k]} {liveI[k]} 0 <= k && k < len(pods) ==> updL[k] == (updI[k] && !gDeleted[pods[k]]))
 //@   at exit: assert [C12] acctsubexit: err == nil && !gDeleting ==> 0 <= crCur && crCur <= nCreated && 0 <= crUpd && crUpd <= nCreated && (forall k int :: {liveI[k]} 0 <= k && k < len(pods) && (rdyI[k] || curL[k] || updL[k]) ==> liveI[k])
+//@   modifies gWrites, gPodTouch
 //@   ensures statusp != nil || err != nil
+//@   profile defaulted ensures [C11] deletingnotouch: set.DeletionTimestamp != nil ==> gPodTouch == old(gPodTouch) && gWrites == old(gWrites)
+//@   profile defaulted ensures [C09] writesgrow: gWrites >= old(gWrites) && gPodTouch >= old(gPodTouch)
 //@   profile defaulted ensures [C12] bounds: err == nil ==> 0 <= statusp.ReadyReplicas && statusp.ReadyReplicas <= statusp.Replicas && 0 <= statusp.CurrentReplicas && statusp.CurrentReplicas <= statusp.Replicas && 0 <= statusp.UpdatedReplicas && statusp.UpdatedReplicas <= statusp.Replicas
 //@   profile defaulted ensures [C12] generation: statusp != nil ==> statusp.ObservedGeneration == set.Generation && statusp.CurrentRevision == currentRevision.Name && statusp.UpdateRevision == updateRevision.Name
 //@   profile defaulted ensures [C12] census: err == nil && gNact == 0 ==> statusp.Replicas == len(pods) && statusp.ReadyReplicas == count(rdyI, 0, len(pods)) && statusp.CurrentReplicas == count(curI, 0, len(pods)) && statusp.UpdatedReplicas == count(updI, 0, len(pods))
@@ -292,6 +302,7 @@ package statefulset
 //@     invariant counted: forall j int :: {condemned[j]} 0 <= j && j < i && !isHealthyS(condemned[j]) ==> unhealthy > 0
 //@   loop 5 "range replicas"
 //@     invariant len(replicas) == replicaCount && !gDeleting && gUpdDeletes == 0
+//@     invariant [C09] writes: gWrites >= old(gWrites) && gPodTouch >= old(gPodTouch)
 //@     invariant alloc: forall o int :: {replicas[o]} 0 <= o && o < replicaCount ==> allocated(replicas[o])
 //@     invariant statusrange: 0 - i <= status.Replicas && status.Replicas <= len(pods) + i && 0 - i <= status.CurrentReplicas && status.CurrentReplicas <= len(pods) + i && 0 - i <= status.UpdatedReplicas && status.UpdatedReplicas <= len(pods) + i
 //@     invariant [C01,C03,C04,C05,C07,C12,C14] placedord: forall o int :: {replicas[o]} {count(gS, 0, o)} 0 <= o && o < replicaCount && replicas[o] != nil ==> ordOf(replicas[o]) == o && (inSnap(replicas[o]) || isNewP(replicas[o]))
@@ -322,6 +333,7 @@ package statefulset
 //@     invariant [C14] burstcreated: !gMonotonic ==> (forall o int :: {gCreated[o]} 0 <= o && o < i && vacant(o) ==> gCreated[o])
 //@   loop 6 "for target := len(condemned) - 1; target >= 0"
 //@     invariant 0 - 1 <= target && target < len(condemned) && !gDeleting && gUpdDeletes == 0
+//@     invariant [C09] writes: gWrites >= old(gWrites) && gPodTouch >= old(gPodTouch)
 //@     invariant statusrange: 0 - replicaCount - (len(condemned) - 1 - target) <= status.CurrentReplicas && 0 - replicaCount - (len(condemned) - 1 - target) <= status.UpdatedReplicas
 //@     invariant [C05] mono: gMonotonic ==> gNact == 0 && target == len(condemned) - 1
 //@     invariant [C03] replaced: forall o int :: {gReplaceDue[o]} gReplaceDue[o] ==> gCreated[o]
@@ -377,8 +389,8 @@ package statefulset
 //@   profile defaulted requires [C12] truthful: statusBounds(status)
 //@   profile defaulted requires [C12] generation: status.ObservedGeneration == set.Generation && status.ObservedGeneration >= set.Status.ObservedGeneration
 //@   profile defaulted requires [C10] copyonly: set >= gAlloc0
-//@   modifies set.Status, gStatusWrites
-//@   ensures gStatusWrites == old(gStatusWrites) + 1
+//@   modifies set.Status, gStatusWrites, gWrites
+//@   ensures gStatusWrites == old(gStatusWrites) + 1 && gWrites == old(gWrites) + 1
 
 //@ func defaultStatefulSetControl.updateStatefulSetStatus
 //@   profiles defaulted, crd
@@ -386,7 +398,8 @@ package statefulset
 //@   profile defaulted requires statusBounds(status) && status.ObservedGeneration == set.Generation
 //@   profile defaulted requires storedvalid: set.Status.ObservedGeneration <= set.Generation
 //@   at entry: ghost gAlloc0 = allocMark()
-//@   modifies status.CurrentReplicas, status.CurrentRevision, gStatusWrites, gAlloc0
+//@   modifies status.CurrentReplicas, status.CurrentRevision, gStatusWrites, gAlloc0, gWrites
+//@   profile defaulted ensures [C11] quietwrites: gWrites - old(gWrites) == gStatusWrites - old(gStatusWrites)
 //@   profile defaulted ensures [C12] promote: status.CurrentRevision != old(status.CurrentRevision) ==> status.CurrentRevision == status.UpdateRevision && set.Spec.UpdateStrategy.Type == "RollingUpdate" && old(status.UpdatedReplicas) == old(status.Replicas) && old(status.ReadyReplicas) == old(status.Replicas)
 //@   profile defaulted ensures [C12] quiet: !old(inconsistentAfter(set, status)) ==> gStatusWrites == old(gStatusWrites)
 //@   profile defaulted ensures [C12] atmostone: gStatusWrites <= old(gStatusWrites) + 1
@@ -407,3 +420,156 @@ package statefulset
 //@   requires obj != nil
 //@   profile defaulted requires [C12] truthful: obj.Status == deref(status) && 0 <= obj.Status.ReadyReplicas && obj.Status.ReadyReplicas <= obj.Status.Replicas && 0 <= obj.Status.CurrentReplicas && obj.Status.CurrentReplicas <= obj.Status.Replicas && 0 <= obj.Status.UpdatedReplicas && obj.Status.UpdatedReplicas <= obj.Status.Replicas
 //@   ensures result1 == nil ==> result0 != nil
+
+// ---- event handlers and the work queue (C16) -----------------------------------------------------------
+//@ globalinv controllerKind.Kind == "StatefulSet"
+// nsKey(ns, name): the work-queue key "ns/name" (cache.MetaNamespaceKeyFunc), uninterpreted
+//@ spec func nsKey(ns string, name string) string
+//@ spec func setKey(s *apps.StatefulSet) string = nsKey(s.Namespace, s.Name)
+// ctrlSet(pod): the StatefulSet in the lister cache that the pod's controller reference resolves to (nil if none):
+// same namespace, kind StatefulSet, same name, same UID
+//@ spec func ctrlRefOf(p *v1.Pod) metav1.OwnerReference = p.OwnerReferences[ctrlIdx(p.OwnerReferences)]
+//@ spec func resolves(ns string, kind string, name string, uid string) bool = kind == "StatefulSet" && listerSet(ns, name) != nil && listerSet(ns, name).UID == uid
+//@ spec func hasCtrl(p *v1.Pod) bool = ctrlIdx(p.OwnerReferences) >= 0
+//@ spec func ctrlResolves(p *v1.Pod) bool = hasCtrl(p) && resolves(p.Namespace, ctrlRefOf(p).Kind, ctrlRefOf(p).Name, ctrlRefOf(p).UID)
+//@ spec func ctrlKey(p *v1.Pod) string = nsKey(p.Namespace, ctrlRefOf(p).Name)
+
+//@ func StatefulSetController.enqueueStatefulSet$keyFunc
+//@   params obj
+//@   results key, err
+//@   pure
+//@   ensures typeIs(obj, "*apps.StatefulSet") && asRef(obj, "*apps.StatefulSet") != nil ==> err == nil && key == setKey(asRef(obj, "*apps.StatefulSet"))
+
+//@ func StatefulSetController.enqueueStatefulSet
+//@   requires ssc != nil && ssc.queue != nil
+//@   modifies gEnq
+//@   ensures [C16] enqueued: typeIs(obj, "*apps.StatefulSet") && asRef(obj, "*apps.StatefulSet") != nil ==> gEnq == store(old(gEnq), setKey(asRef(obj, "*apps.StatefulSet")), true)
+//@   ensures [C16] onlythat: forall k string :: {gEnq[k]} gEnq[k] && !old(gEnq[k]) ==> typeIs(obj, "*apps.StatefulSet") && asRef(obj, "*apps.StatefulSet") != nil && k == setKey(asRef(obj, "*apps.StatefulSet"))
+
+//@ func StatefulSetController.resolveControllerRef
+//@   requires ssc != nil && ssc.setLister != nil && controllerRef != nil
+//@   pure
+//@   ensures [C16] (result != nil) == resolves(namespace, controllerRef.Kind, controllerRef.Name, controllerRef.UID)
+//@   ensures [C16] result != nil ==> result == listerSet(namespace, controllerRef.Name) && result.Namespace == namespace && result.Name == controllerRef.Name && allocated(result)
+
+// selects(S, pod): S's selector converts, is not empty and matches the pod's labels (uninterpreted; the heap is not
+// modified by the functions that use it)
+//@ spec func selects(s *apps.StatefulSet, p *v1.Pod) bool
+
+//@ interface github.com/pingcap/advanced-statefulset/client/client/listers/apps/v1:StatefulSetListerExpansion.GetPodStatefulSets
+//@   params s, pod
+//@   results sets, err
+//@   requires pod != nil
+//@   pure
+//@   ensures err != nil ==> len(sets) == 0
+//@   ensures forall i int :: {sets[i]} 0 <= i && i < len(sets) ==> sets[i] != nil && allocated(sets[i]) && sets[i].Namespace == pod.Namespace && sets[i] == listerSet(pod.Namespace, sets[i].Name) && selects(sets[i], pod)
+//@   ensures [C16] complete: forall name string :: {listerSet(pod.Namespace, name)} listerSet(pod.Namespace, name) != nil && selects(listerSet(pod.Namespace, name), pod) ==> (exists i int :: {sets[i]} 0 <= i && i < len(sets) && sets[i] == listerSet(pod.Namespace, name))
+
+//@ func StatefulSetController.getStatefulSetsForPod
+//@   requires ssc != nil && ssc.setLister != nil && pod != nil
+//@   pure
+//@   ensures forall i int :: {result[i]} 0 <= i && i < len(result) ==> result[i] != nil && allocated(result[i]) && result[i].Namespace == pod.Namespace && result[i] == listerSet(pod.Namespace, result[i].Name) && selects(result[i], pod)
+//@   ensures [C16] complete: forall name string :: {listerSet(pod.Namespace, name)} listerSet(pod.Namespace, name) != nil && selects(listerSet(pod.Namespace, name), pod) ==> (exists i int :: {result[i]} 0 <= i && i < len(result) && result[i] == listerSet(pod.Namespace, name))
+
+//@ func StatefulSetController.deletePod
+//@   requires ssc != nil && ssc.queue != nil && ssc.setLister != nil
+//@   requires typeIs(obj, "*v1.Pod") ==> asRef(obj, "*v1.Pod") != nil
+//@   requires tombstonepod: typeIs(obj, "cache.DeletedFinalStateUnknown") && typeIs(asRef(obj, "*cache.DeletedFinalStateUnknown").Obj, "*v1.Pod") ==> asRef(asRef(obj, "*cache.DeletedFinalStateUnknown").Obj, "*v1.Pod") != nil
+//@   modifies gEnq
+//@   ensures [C16] direct: typeIs(obj, "*v1.Pod") && ctrlResolves(asRef(obj, "*v1.Pod")) ==> gEnq[ctrlKey(asRef(obj, "*v1.Pod"))]
+//@   ensures [C16] tombstone: typeIs(obj, "cache.DeletedFinalStateUnknown") && typeIs(asRef(obj, "*cache.DeletedFinalStateUnknown").Obj, "*v1.Pod") && ctrlResolves(asRef(asRef(obj, "*cache.DeletedFinalStateUnknown").Obj, "*v1.Pod")) ==> gEnq[ctrlKey(asRef(asRef(obj, "*cache.DeletedFinalStateUnknown").Obj, "*v1.Pod"))]
+//@   ensures [C16] nothingelse: typeIs(obj, "*v1.Pod") ==> (forall k string :: {gEnq[k]} gEnq[k] && !old(gEnq[k]) ==> ctrlResolves(asRef(obj, "*v1.Pod")) && k == ctrlKey(asRef(obj, "*v1.Pod")))
+
+//@ func StatefulSetController.addPod
+//@   requires ssc != nil && ssc.queue != nil && ssc.setLister != nil
+//@   requires informer: typeIs(obj, "*v1.Pod") && asRef(obj, "*v1.Pod") != nil
+//@   modifies gEnq
+//@   ghost var gSets []*apps.StatefulSet
+//@   at call getStatefulSetsForPod#1 after: ghost gSets = result
+//@   ensures [C16] controlled: ctrlResolves(asRef(obj, "*v1.Pod")) ==> gEnq[ctrlKey(asRef(obj, "*v1.Pod"))]
+//@   ensures [C16] orphan: !hasCtrl(asRef(obj, "*v1.Pod")) && asRef(obj, "*v1.Pod").DeletionTimestamp == nil ==> (forall name string :: {listerSet(asRef(obj, "*v1.Pod").Namespace, name)} listerSet(asRef(obj, "*v1.Pod").Namespace, name) != nil && selects(listerSet(asRef(obj, "*v1.Pod").Namespace, name), asRef(obj, "*v1.Pod")) ==> gEnq[nsKey(asRef(obj, "*v1.Pod").Namespace, name)])
+//@   ensures [C16] unrelated: forall k string :: {gEnq[k]} gEnq[k] && !old(gEnq[k]) ==> (ctrlResolves(asRef(obj, "*v1.Pod")) && k == ctrlKey(asRef(obj, "*v1.Pod"))) || (!hasCtrl(asRef(obj, "*v1.Pod")) && (exists name string :: k == nsKey(asRef(obj, "*v1.Pod").Namespace, name) && listerSet(asRef(obj, "*v1.Pod").Namespace, name) != nil && selects(listerSet(asRef(obj, "*v1.Pod").Namespace, name), asRef(obj, "*v1.Pod"))))
+//@   loop 1 "range sets" index j
+//@     invariant forall i int :: {sets[i]} 0 <= i && i < j ==> gEnq[setKey(sets[i])]
+//@     invariant forall k string :: {gEnq[k]} gEnq[k] && !old(gEnq[k]) ==> (exists i int :: {sets[i]} 0 <= i && i < j && k == setKey(sets[i]))
+
+//@ func StatefulSetController.processNextWorkItem
+//@   requires ssc != nil && ssc.queue != nil
+//@   ghost var gKey string
+//@   ghost var gSyncErr error
+//@   at call Get#1 after: ghost gKey = ifaceStr(item)
+//@   at call sync#1 after: ghost gSyncErr = result
+//@   modifies gAddRL, gForget, gDone, gEnq, gWrites, gPodTouch, gRevAdopts, gStatusWrites
+//@   ensures [C09,C16] requeue: result && gSyncErr != nil ==> gAddRL[gKey] && gForget == old(gForget)
+//@   ensures [C09,C16] forget: result && gSyncErr == nil ==> gForget[gKey] && gAddRL == old(gAddRL)
+//@   ensures [C16] done: result ==> gDone[gKey]
+
+// ---- revisions (C13, C10, C08) ---------------------------------------------------------------------------
+//@ spec func revOrphan(r *kubeapps.ControllerRevision) bool = ctrlIdx(r.OwnerReferences) < 0
+//@ spec func revOwnerUID(r *kubeapps.ControllerRevision) string = r.OwnerReferences[ctrlIdx(r.OwnerReferences)].UID
+//@ spec func revOurs(r *kubeapps.ControllerRevision, s *apps.StatefulSet) bool = revOrphan(r) || revOwnerUID(r) == s.UID
+
+//@ func defaultStatefulSetControl.ListRevisions
+//@   profiles defaulted, crd
+//@   results revs, err
+//@   requires ssc != nil && set != nil && ssc.csAppsV1 != nil
+//@   ensures err == nil ==> (forall i int :: {revs[i]} 0 <= i && i < len(revs) ==> revs[i] != nil && fresh(revs[i]))
+//@   ensures [C10,C13] ours: err == nil ==> (forall i int :: {revs[i]} 0 <= i && i < len(revs) ==> revOurs(revs[i], set))
+//@   ensures [C13] once: err == nil ==> (forall a int, b int :: {revs[a], revs[b]} 0 <= a && a < b && b < len(revs) ==> revs[a].Name != revs[b].Name)
+//@   ensures [C10] pointersdistinct: err == nil ==> (forall a int, b int :: {revs[a], revs[b]} 0 <= a && a < b && b < len(revs) ==> revs[a] != revs[b])
+//@   loop 1 "range append(revisions.Items, revisinsToUpgrade.Items...)" index j
+//@     invariant forall i int :: {res[i]} 0 <= i && i < len(res) ==> res[i] != nil && fresh(res[i]) && allocated(res[i])
+//@     invariant [C10,C13] ours: forall i int :: {res[i]} 0 <= i && i < len(res) ==> revOurs(res[i], set)
+//@     invariant [C13] seenall: forall i int :: {res[i]} 0 <= i && i < len(res) ==> seen[res[i].Name]
+//@     invariant [C13] once: forall a int, b int :: {res[a], res[b]} 0 <= a && a < b && b < len(res) ==> res[a].Name != res[b].Name
+//@     invariant [C10] pointersdistinct: forall a int, b int :: {res[a], res[b]} 0 <= a && a < b && b < len(res) ==> res[a] != res[b]
+
+// truncateHistory: the property is the precondition of the revision Delete call (caller-specific contract).
+//@ ghost global gRevDeleted set[string]   -- names of revisions for which a delete was issued
+//@ ghost global gRevDelCount int
+//@ spec func liveName(name string, current *kubeapps.ControllerRevision, update *kubeapps.ControllerRevision, pods []*v1.Pod) bool = name == current.Name || name == update.Name || (exists k int :: {pods[k]} 0 <= k && k < len(pods) && revOf(pods[k]) == name)
+
+//@ func defaultStatefulSetControl.truncateHistory
+//@   profiles defaulted, crd
+//@   lemmas count_bound, count_store, count_ext, count_mono, count_member, count_full, count_split
+//@   requires ssc != nil && set != nil && current != nil && update != nil && ssc.csAppsV1 != nil
+//@   requires set.Spec.RevisionHistoryLimit != nil && deref(set.Spec.RevisionHistoryLimit) >= 0
+//@   requires forall k int :: {pods[k]} 0 <= k && k < len(pods) ==> pods[k] != nil
+//@   requires revsvalid: forall i int :: {revisions[i]} 0 <= i && i < len(revisions) ==> revisions[i] != nil
+//@   profile defaulted requires revsours: forall i int :: {revisions[i]} 0 <= i && i < len(revisions) ==> revOurs(revisions[i], set)
+//@   profile defaulted requires revsonce: forall a int, b int :: {revisions[a], revisions[b]} 0 <= a && a < b && b < len(revisions) ==> revisions[a].Name != revisions[b].Name
+//@   at entry: ghost gRevDeleted = emptyset(); ghost gRevDelCount = 0
+//@   ghost var unusedI set[int] = emptyset()   -- indices of revisions that are not live
+//@   ghost var hidx map[int]int                -- index in revisions of history[m]
+//@   at call append#1 before: ghost hidx[len(history)] = i
+//@   at loopend 2: ghost unusedI[i - 1] = !liveName(revisions[i - 1].Name, current, update, pods)
+//@   modifies gRevDeleted, gRevDelCount, gWrites
+//@   profile defaulted ensures [C13] trimmed: result == nil ==> count(unusedI, 0, len(revisions)) - gRevDelCount <= deref(set.Spec.RevisionHistoryLimit)
+//@   profile defaulted ensures [C13] unusedchar: forall j int :: {revisions[j]} 0 <= j && j < len(revisions) ==> (unusedI[j] <==> !liveName(revisions[j].Name, current, update, pods))
+//@   profile defaulted ensures [C13] nomore: gRevDelCount <= count(unusedI, 0, len(revisions)) - deref(set.Spec.RevisionHistoryLimit) || gRevDelCount == 0
+//@   ensures [C09] writes: gWrites >= old(gWrites)
+//@   loop 1 "range pods"
+//@     invariant live != nil && fresh(live)
+//@     invariant [C13] livechar: forall n string :: {live[n]} live[n] ==> n == current.Name || n == update.Name || (exists k int :: {pods[k]} 0 <= k && k < i && revOf(pods[k]) == n)
+//@     invariant [C13] livechar2: live[current.Name] && live[update.Name] && (forall k int :: {pods[k]} 0 <= k && k < i ==> live[revOf(pods[k])])
+//@     invariant [C13] livetrue: forall n string :: {live[n]} live.has(n) ==> live[n]
+//@   loop 2 "range revisions"
+//@     invariant len(history) == count(unusedI, 0, i) && len(history) <= i
+//@     invariant [C13] unusedchar: forall j int :: {revisions[j]} {unusedI[j]} 0 <= j && j < i ==> (unusedI[j] <==> !liveName(revisions[j].Name, current, update, pods))
+//@     invariant [C13] unusedrest: forall j int :: {unusedI[j]} j >= i || j < 0 ==> !unusedI[j]
+//@     invariant [C13] histsrc: forall m int :: {history[m]} {hidx[m]} 0 <= m && m < len(history) ==> 0 <= hidx[m] && hidx[m] < i && history[m] == revisions[hidx[m]] && unusedI[hidx[m]] && count(unusedI, 0, hidx[m]) == m
+//@     invariant [C13] histinv: forall j int :: {unusedI[j]} 0 <= j && j < i && unusedI[j] ==> 0 <= count(unusedI, 0, j) && count(unusedI, 0, j) < len(history) && hidx[count(unusedI, 0, j)] == j
+//@   loop 3 "for i := 0; i < len(history)"
+//@     invariant 0 <= i && i <= len(history) && gRevDelCount == i && gWrites >= old(gWrites)
+//@     invariant [C13] deletedprefix: forall n string :: {gRevDeleted[n]} gRevDeleted[n] <==> (exists m int :: {history[m]} 0 <= m && m < i && history[m].Name == n)
+
+//@ extern k8s.io/client-go/kubernetes/typed/apps/v1:ControllerRevisionInterface.Delete@defaultStatefulSetControl.truncateHistory
+//@   params c, ctx, name, opts
+//@   profile defaulted requires [C13] belongs: exists j int :: {revisions[j]} 0 <= j && j < len(revisions) && revisions[j].Name == name && revOurs(revisions[j], set)
+//@   profile defaulted requires [C13] notlive: !liveName(name, current, update, pods)
+//@   profile defaulted requires [C13] overlimit: count(unusedI, 0, len(revisions)) - gRevDelCount > deref(set.Spec.RevisionHistoryLimit)
+//@   profile defaulted requires [C13] oldestfirst: forall j int :: {revisions[j]} 0 <= j && j < len(revisions) && unusedI[j] && (exists m int :: {revisions[m]} j < m && m < len(revisions) && revisions[m].Name == name) ==> gRevDeleted[revisions[j].Name]
+//@   profile defaulted requires [C13] once: !gRevDeleted[name]
+//@   modifies gRevDeleted, gRevDelCount, gWrites
+//@   noalloc
+//@   ensures gRevDeleted == store(old(gRevDeleted), name, true) && gRevDelCount == old(gRevDelCount) + 1 && gWrites == old(gWrites) + 1
